@@ -103,7 +103,9 @@ def c10_build(valid, unit, v, r, new_id):
 
 def c10_plan_request(valid, unit, v, r):
     """model-driver request for the SPEC's plan script of this (base, stage, vector, r) — see props/families/valve.py;
-    theorems C10_gs3_query_* (Props/C10_gs3_whole.lean).  Only for cases straight from `gen gs3`."""
+    theorems C10_gs3_query_* (Props/C10_gs3_whole.lean), stated over ConfigX / wfX: replies with any allowed extra field
+    sections, which is what `gen gs3` draws — every well-formed base is in the theorems' domain.  Only for cases straight
+    from `gen gs3`."""
     import re
     m = re.fullmatch(r"g(\d+)_(\d+)", valid.id)
     if not m:
